@@ -60,7 +60,7 @@ package file
 //@ spec def fileSubstrate(r Ref) Ref = ite(typeis(r, "*file.singleNodeFile"), ite(r.(*file.singleNodeFile).substrate != nil, r.(*file.singleNodeFile).substrate, r.(*file.singleNodeFile).Node), r.(*file.shardNodeFile).substrate)
 
 //@ func (*file.singleNodeFile).Substrate
-//@ ensures substrate-is-original: result == fileSubstrate(f)
+//@ ensures substrate-is-original: result == ite(f.substrate != nil, f.substrate, f.Node)
 //@ assigns nothing
 
 //@ func (*file.shardNodeFile).Substrate
@@ -73,7 +73,6 @@ package file
 //@ assigns nothing
 
 //@ func file.NewUnixFSFile
-//@ requires substrate != nil
 //@ ensures substrate-preserved: err == nil ==> result != nil && (typeis(result, "*file.singleNodeFile") || typeis(result, "*file.shardNodeFile")) && fileSubstrate(result) == substrate
 //@ ensures err != nil ==> result == nil
 //@ assigns nothing
